@@ -359,6 +359,37 @@ def _structure(P_, tree, path="$"):
     return None
 
 
+def _norm_type(t):
+    """type tree read from a CQL string -> comparable form (frozen<frozen<X>> == frozen<X>; blanks inside a quoted
+    class string do not count: Cassandra's TypeParser skips them)"""
+    k = t["t"]
+    if k == "frozen":
+        inner = _norm_type(t["of"])
+        return inner if inner["t"] == "frozen" else {"t": "frozen", "of": inner}
+    if k == "custom":
+        return {"t": "custom", "cls": "".join(t["cls"].split())}
+    out = dict(t)
+    if k in ("list", "set", "vector"):
+        out["of"] = _norm_type(t["of"])
+    elif k == "map":
+        out["k"], out["v"] = _norm_type(t["k"]), _norm_type(t["v"])
+    elif k == "tuple":
+        out["of"] = [_norm_type(c) for c in t["of"]]
+    return out
+
+
+def _same_cql_type(got_text, want_text):
+    """two CQL type strings name the same type, as read by the independent CQL type parser (so an identifier
+    the driver quotes although it need not is fine, whitespace is free)"""
+    from spec import cqlterm
+    want = _norm_type(cqlterm.parse_type(want_text))
+    try:
+        got = _norm_type(cqlterm.parse_type(got_text))
+    except ValueError:
+        return False
+    return got == want
+
+
 def _cql_name_of(Pt):
     from cassandra.metadata import _cql_from_cass_type
     return _cql_from_cass_type(Pt)
@@ -381,12 +412,7 @@ def _name_mismatch(Pt, tree):
     if t == "reversed":
         return None    # only judged through _cql_from_cass_type at the top
     raw = Pt.cql_parameterized_type()
-    got = _collapse_frozen(_squash(raw))
-    want = _collapse_frozen(_squash(to_cql(tree)))
-    if t in ("composite", "dynamic", "custom"):
-        # a quoted class string: Cassandra's TypeParser skips blanks, so they do not count
-        got, want = "".join(got.split()), "".join(want.split())
-    if got == want:
+    if _same_cql_type(raw, to_cql(tree)):
         return None
     feat = t
     if t == "udt":
@@ -437,9 +463,8 @@ def interpret_descriptor(case, ctx):
         if r:
             ctx.fail(["C28.cql_name", r[0]], "CQL name %r, Cassandra calls it %r  [descriptor %r]" % (r[1], r[2], text[:200]))
         elif tree["t"] == "reversed":
-            got = _collapse_frozen(_squash(_cql_name_of(parsed)))
-            want = _collapse_frozen(_squash(to_cql(tree)))
-            ctx.check(got == want, ["C28.cql_name", "reversed"], "CQL name %r, expected %r" % (got, want))
+            got, want = _cql_name_of(parsed), to_cql(tree)
+            ctx.check(_same_cql_type(got, want), ["C28.cql_name", "reversed"], "CQL name %r, expected %r" % (got, want))
         ctx.check(C.cql_typename(text) == parsed.cql_parameterized_type(), ["C28.cql_typename.differs"],
                   "cql_typename(s) != lookup_casstype(s).cql_parameterized_type()")
 
